@@ -69,16 +69,16 @@ reg("C07", "exploration",
     "tile_id(zxy) vs id, adjacency of consecutive ids, zoom-block order, children blocks), boundary/random points at every "
     "zoom 0-31, boundary/random u64 ids incl. ids beyond zoom 31, and coordinate lookups outside the grid for z=0..255 against "
     "archives holding the aliased tile (distinct by fingerprint of (z,x,y) / id; non-trivial = out-of-grid or z>=1)",
-    require={"any": {"sweep_ids": 1000000, "adjacency_checked": 1000000, "lookup_out_of_grid_none": 1000,
+    require={"any": {"sweep_ids": 80000000, "adjacency_checked": 80000000, "lookup_out_of_grid_none": 1000,
                      "lookup_in_grid_ok": 100, "ids_rejected": 1000, "children_blocks_checked": 1000}},
     exhaustive_key=None)
 
 reg("C09", "exploration",
-    "cases = 127-byte headers: decode->encode sweep over stored coordinate values (stride 4099 quick, every one of the 2^32 "
+    "cases = 127-byte headers: decode->encode sweep over stored coordinate values (stride 37 quick, every one of the 2^32 "
     "values thorough; six slots per header; distinct by enumeration), random/boundary integer+enum fields with short-read, "
     "async and consumed-bytes clauses, sampled f64 degrees incl. half-step ties (nearest-multiple clause), and the rejection "
     "classes (each magic byte, every version != 3, every unknown enum code, every truncation 0..126)",
-    require={"any": {"stored_values_swept": 1000000, "degree_headers": 10000, "rejections_ok": 1000, "detail_checks": 1000}},
+    require={"any": {"stored_values_swept": 100000000, "degree_headers": 10000, "rejections_ok": 1000, "detail_checks": 1000}},
     exhaustive_key="stored_sweep_exhaustive", phases=with_layers("miri"))
 
 
@@ -237,7 +237,7 @@ _C04_CELLS = {"transition.add.absent": 100, "transition.add.mem-unique": 100, "t
               "transition.remove.mem-shared": 100, "transition.remove.backed": 100, "transition.reopen-sync.n/a": 100,
               "transition.reopen-async.n/a": 100}
 reg("C04", "exploration",
-    "cases = edit histories over {add(id,bytes), remove(id), save+reopen sync, save+reopen async}: (a) EVERY sequence of length <= 4 "
+    "cases = edit histories over {add(id,bytes), remove(id), save+reopen sync, save+reopen async}: (a) EVERY sequence of length <= 5 "
     "(quick) / <= 6 (thorough) over 11 symbols (ids 4,5,6 adjacent; contents A,B; A also held by the start archive) from two start "
     "states {empty, opened foreign archive whose single run-length entry maps 5,6 -> A} (distinct by enumeration), (b) random "
     "histories of 200-2000 ops over up to 10^3 ids across zooms and a 50-content pool with a save+reopen every 50 ops alternating "
